@@ -14,6 +14,21 @@ CLAIMS = {
  'C04': dict(text='Coq theorems for every history of the handle machine: every count accessor through every handle kind (also inside callback bodies) returns exactly the number of owning table entries (raw pointers and forgotten handles included) and changes nothing; conversions/borrows/moves leave every owner count unchanged; clone-style ops add exactly one, releases remove exactly one. Tied to the code by differential runs with a count read after random steps and by the atomic-site translation.',
              note=NOTE_MECH),
 }
+NOTE_CONC = NOTE_MECH + ' Memory model: promise-free view semantics of release/acquire with relaxed RMWs on one counter (RC11 without load buffering), coq/theories/Conc.v; the orderings, the closed world of atomic sites and the shape of drop_inner are re-extracted from /repo/src on every run; real multi-threaded executions are not part of the quick check.'
+CLAIMS.update({
+ 'C02': dict(text='Coq theorem over a view-based release/acquire machine with ANY number of threads, every interleaving, stale loads, release sequences through relaxed RMWs and arbitrary extra synchronisation: under the orderings extracted from the source on every run, no access races with another access, the destruction or the deallocation, nothing is touched after the free, the value is destroyed at most once and exactly once at quiescence; plus closed-world and funnel obligations (every handle kind clones/drops through Arc\'s primitives, proved on the sequential machine) and tightness witnesses. Tied to the code by the translator and by comparing the atomic footprint (operation, ordering, old value) of every call in generated histories. On a break: bounded exploration of the machine under the extracted orderings yields a racy schedule as the replay.',
+             note=NOTE_CONC),
+ 'C03': dict(text='Sequential half: Coq theorems for every history that is_unique/try_unique/TryFrom/get_mut (through every Arc-typed kind, also inside with_arc_mut)/try_unwrap/deprecated writers succeed iff the value has exactly one owning table entry of any kind, that declining leaves table and heap unchanged, and that UniqueArc-like handles are always sole owners. Schedule half: on the view machine, a uniqueness test that reads 1 read the last message (no stale 1), its caller is the sole holder and afterwards knows every access ever made, so the granted write cannot race (uniq_sound + conc_safe, any number of threads), with the Acquire on the test shown necessary. Tied by translator (gate shape, effective load ordering through delegations) and the mech stream with verdict observations and footprints.',
+             note=NOTE_CONC),
+ 'C08': dict(text='Coq theorem for every history: make_mut on Arc and OffsetArc keeps the block and calls no Clone when the handle is the sole owner; otherwise exactly one Clone call, a fresh block with count 1, the old block keeps its cells and loses exactly one count, every other block is unchanged (so every other handle reads what it read before); a panicking Clone changes nothing. Schedule half by conc_safe. Tied by the mech stream (co-owners of all kinds, values read through all handles, Clone-call events, allocation identity, clone panics) and footprints.',
+             note=NOTE_CONC),
+ 'C09': dict(text='Coq theorems for every history with explicit event logs: try_unwrap/into_inner/unwrap_or_clone/try_unique/TryFrom hand the value (or sole ownership) out only for a sole owner, with no destructor before the hand-over and the block released exactly then; otherwise the same handle/table/heap (unwrap_or_clone: one Clone call, one owner released, also when Clone panics). Schedule half: destroyed-or-moved-out at most once always and exactly once at quiescence on the view machine; closed world of atomic sites. Tied by the mech stream and footprints.',
+             note=NOTE_CONC),
+ 'C10': dict(text='Coq theorems for every history: every ThinArc / raw thin pointer / Protected Arc records the true slice length; thin and fat views of a block coincide; thin<->fat<->Protected<->raw conversions are count-neutral; into_thin on a wrong recorded length panics and releases that Arc properly; with_arc_mut writes the (possibly replaced) pointer back on return and on unwind. Tied by the mech stream (systematic replace/assign/panic scenarios inside with_arc_mut, wrong recorded lengths) ; addresses/offsets are covered by C05/C11.',
+             note=NOTE_MECH),
+ 'C15': dict(text='Coq theorems for every history with explicit event logs: dropping a MaybeUninit-typed handle (5 kinds) runs no element destructor whatever was written, destroys the header once and frees once; initialised-typed handles destroy every element once in order; assume_init (5 forms) changes only the type; the deprecated writers on a shared handle panic leaving table and heap unchanged. Tied by the mech stream (uninit kinds, slot writes, assume_init, sharing states).',
+             note=NOTE_MECH),
+})
 ORDER = ['C%02d' % i for i in range(1, 18)]
 NA_REASON = 'check under construction; not claimed yet (see DESIGN.md section 6 for the planned theorem)'
 
